@@ -121,19 +121,29 @@ fn run_config(bin: &Path, root: &Path, cfg: &Config) -> Result<Run, MachineryErr
     };
     let env = env_for(cfg.env, cfg.seed);
     let sink_dir = if cfg.sink == 1 { Some(subject::scratch_dir()) } else { None };
-    let o = run_cli(CliRun {
-        bin,
-        arg: &arg,
-        cwd: &cwd,
-        env: &env,
-        stdin: match cfg.stdin {
-            0 => StdinMode::Closed,
-            1 => StdinMode::Null,
-            _ => StdinMode::Data(b"print(\"from stdin\")\njunk\n".to_vec()),
-        },
-        to_files: sink_dir.as_deref(),
-        timeout: Duration::from_secs(10),
-    })?;
+    let mut o = None;
+    for limit in [10u64, 60] {
+        let r = run_cli(CliRun {
+            bin,
+            arg: &arg,
+            cwd: &cwd,
+            env: &env,
+            stdin: match cfg.stdin {
+                0 => StdinMode::Closed,
+                1 => StdinMode::Null,
+                _ => StdinMode::Data(b"print(\"from stdin\")\njunk\n".to_vec()),
+            },
+            to_files: sink_dir.as_deref(),
+            timeout: Duration::from_secs(limit),
+        })?;
+        // a slow start under load is not a hang: decide with a generous limit
+        let timed_out = r.timed_out;
+        o = Some(r);
+        if !timed_out {
+            break;
+        }
+    }
+    let o = o.unwrap();
     if let Some(d) = sink_dir {
         let _ = std::fs::remove_dir_all(d);
     }
